@@ -62,6 +62,9 @@ def gen_grid(rng):
     if t < 0.6:
         k = rng.randint(0, 6)
         inner = sorted(round(rng.uniform(0.01, 0.99), rng.choice([1, 2, 3])) for _ in range(k))
+        if inner and rng.random() < 0.3:
+            # a grid may name the same quantile twice (or three times): two markers then compete for one rank
+            inner = sorted(inner + [rng.choice(inner)] * rng.choice([1, 1, 2]))
         return ['grid', [0.0] + inner + [1.0]]
     if t < 0.9:
         return ['quantile', rng.choice([0.01, 0.05, 0.1, 0.25, 0.3, 0.5, 0.7, 0.75, 0.9, 0.95, 0.99, round(rng.uniform(0.02, 0.98), 3)])]
@@ -163,3 +166,27 @@ def close_rel(a, b, rtol=1e-9):
     if math.isnan(a) or math.isnan(b) or math.isinf(a) or math.isinf(b):
         return False
     return abs(a - b) <= rtol * max(abs(a), abs(b), 1e-300)
+
+
+def roundtrip(est, kind):
+    """the estimator after a trip through a serialiser (as when it is shipped between processes or checkpointed)"""
+    import copy
+    import pickle
+    if kind == 'pickle':
+        return pickle.loads(pickle.dumps(est))
+    if kind == 'dill':
+        import dill
+        return dill.loads(dill.dumps(est))
+    if kind == 'deepcopy':
+        return copy.deepcopy(est)
+    if kind == 'copy':
+        # a shallow copy shares state with the original, which is dropped here: must behave like the original
+        return copy.copy(est)
+    raise ValueError(kind)
+
+
+def gen_roundtrips(rng, n):
+    """[[i, kind]]: before observation i the estimator is replaced by its round-tripped self"""
+    if n < 2 or rng.random() > 0.3:
+        return []
+    return sorted([rng.randrange(1, n), rng.choice(['pickle', 'dill', 'deepcopy', 'copy'])] for _ in range(rng.choice([1, 1, 2])))
